@@ -199,11 +199,13 @@ def r_strain(ctx, model):
              ("ModulusRepresentation", (I(0), I(1))), ("ModulusRepresentation", (I(7), I(1))), ("ModulusRepresentation", (I(1), I(7))),
              ("ModulusRepresentation", (I(1), I(1), I(1), I(4))), ("ModulusRepresentation", (I(0), I(1), I(1), I(1))),
              ("ModulusRepresentation", ("17",)), ("ModulusRepresentation", (I(70),)), ("ModulusRepresentation", ("1114",)),
-             ("ModulusRepresentation", (I(1), I(2), I(3))), ("ModulusRepresentation", ())]
+             ("ModulusRepresentation", (I(1), I(2), I(3))), ("ModulusRepresentation", ()),
+             # not an index at all (no branch of the dispatch applies): refused, not answered with None
+             ("StrainRepresentation", (None,)), ("StrainRepresentation", (sp.Rational(3, 2),))]
     for cls, args in cases:
         try:
             o = mk(ev, cls, *args)
-            bad.append(f"{cls}{args} accepted -> {hkey(o)}")
+            bad.append(f"{cls}{args} accepted -> {hkey(o) if o is not None else None}")
         except RaisedV:
             pass
         except AnalysisError as e:
